@@ -17,6 +17,7 @@ import Flamego.Driver.Chain
 import Flamego.Driver.Noop
 import Flamego.Driver.Dsl
 import Flamego.Driver.Parser
+import Flamego.Driver.App
 open Flamego Flamego.Driver
 
 def dispatch (o : Oracle) (kind : String) (args : List String) (body : List (List String)) : List String :=
@@ -35,12 +36,14 @@ def dispatch (o : Oracle) (kind : String) (args : List String) (body : List (Lis
   | "noop" => Noop.session args body
   | "dsl" => Dsl.session args body
   | "parser" => Parser.session args body
+  | "app" => Flamego.Driver.App.session o.engine args body
   | _ => "bad-kind" :: body.map (fun _ => "bad-kind")
 
 def dispatchQueries (kind : String) (args : List String) (body : List (List String)) : List String :=
   match kind with
   | "router" => Router.queries args body
   | "access" => Access.queries body
+  | "app" => Router.queries args body
   | _ => []
 
 partial def readLines (h : IO.FS.Stream) (acc : Array String) : IO (Array String) := do
